@@ -1602,46 +1602,48 @@ namespace detail
         static const size_t n = sizeof...(R);
 
         constexpr rule(L l, std::tuple<R...> r) :
-            f(nullptr), l(l), r(r), precedence(0)
+            f(nullptr), l(l), r(r), precedence(0), precedence_given(false)
         {}
 
         template<typename F1>
         constexpr rule(F1&& f, L l, std::tuple<R...> r) :
-            f(std::move(f)), l(l), r(r), precedence(0)
+            f(std::move(f)), l(l), r(r), precedence(0), precedence_given(false)
         {}
 
         template<typename F1>
-        constexpr rule(F1&& f, L l, std::tuple<R...> r, int precedence) :
-            f(std::move(f)), l(l), r(r), precedence(precedence)
+        constexpr rule(F1&& f, L l, std::tuple<R...> r, int precedence, bool precedence_given) :
+            f(std::move(f)), l(l), r(r), precedence(precedence), precedence_given(precedence_given)
         {}
 
         constexpr auto operator[](int prec)
         {
-            return rule<RequiresContext, F, L, R...>(std::move(f), l, r, prec);
+            return rule<RequiresContext, F, L, R...>(std::move(f), l, r, prec, true);
         }
 
         template<typename F1>
         constexpr auto operator >= (F1&& f)
         {
-            return rule<false, std::decay_t<F1>, L, R...>(std::move(f), l, r, precedence);
+            return rule<false, std::decay_t<F1>, L, R...>(std::move(f), l, r, precedence, precedence_given);
         }
 
         template<typename F1>
         constexpr auto operator >>= (F1&& f)
         {
-            return rule<true, std::decay_t<F1>, L, R...>(std::move(f), l, r, precedence);
+            return rule<true, std::decay_t<F1>, L, R...>(std::move(f), l, r, precedence, precedence_given);
         }
 
         constexpr const F& get_f() const { return f; }
         constexpr const L& get_l() const { return l; }
         constexpr const auto& get_r() const { return r; }
         constexpr int get_precedence() const { return precedence; }
+        constexpr bool is_precedence_given() const { return precedence_given; }
 
     private:
         F f;
         L l;
         std::tuple<R...> r;
         int precedence;
+        bool precedence_given;
     };
 
     template<typename L, typename... R>
@@ -2694,9 +2696,9 @@ private:
         return uninitialized16;
     }
 
-    constexpr int calculate_rule_precedence(int precedence, size16_t rule_idx) const
+    constexpr int calculate_rule_precedence(bool precedence_given, int precedence, size16_t rule_idx) const
     {
-        if (precedence != 0)
+        if (precedence_given)
             return precedence;
         size16_t last_term_idx = gi.rule_last_terms[rule_idx];
         if (last_term_idx != uninitialized16)
@@ -2720,7 +2722,7 @@ private:
         constexpr size16_t rule_elements_count = size16_t(sizeof...(R));
         gi.rule_infos[Nr] = { l_idx, size16_t(Nr), rule_elements_count };
         gi.rule_last_terms[Nr] = calculate_rule_last_term(Nr, rule_elements_count);
-        gi.rule_precedences[Nr] = calculate_rule_precedence(r.get_precedence(), Nr);
+        gi.rule_precedences[Nr] = calculate_rule_precedence(r.is_precedence_given(), r.get_precedence(), Nr);
         gi.rule_associativities[Nr] = calculate_rule_associativity(Nr);
     }
 
